@@ -15,7 +15,6 @@ package main
 import (
 	"bytes"
 	"compress/gzip"
-	"context"
 	"encoding/json"
 	"flag"
 	"fmt"
@@ -26,12 +25,14 @@ import (
 	"os"
 	"os/signal"
 	"path/filepath"
+	"runtime"
 	"strconv"
 	"strings"
 	"sync"
 	"syscall"
 	"time"
 
+	"github.com/relex/fluentlib/protocol/forwardprotocol"
 	"github.com/relex/fluentlib/server"
 	"github.com/relex/fluentlib/server/receivers"
 	"github.com/relex/gotils/logger"
@@ -40,6 +41,8 @@ import (
 	"github.com/relex/slog-agent/output/datadog"
 	"github.com/relex/slog-agent/output/fluentdforward"
 	"github.com/relex/slog-agent/run"
+
+	"github.com/vmihailenco/msgpack/v4"
 
 	"slogverif/hutil"
 	"slogverif/seq"
@@ -84,7 +87,7 @@ const fluentdOutput = `      type: fluentdForward
         environmentFields: [host]
         hiddenFields: [source]
         rewriteFields: {}
-      messageMode: CompressedPackedForward
+      messageMode: MODE
       upstream:
         address: ADDRESS
         tls: false
@@ -227,57 +230,58 @@ func waitAgentHasRead(conn net.Conn) bool {
 	return true
 }
 
-// waitNoServerConnections returns when no socket of the server side (local port = port) is open any more: the server closes
-// a connection only after it has handed everything it read from it to the collector.
-func waitNoServerConnections(port int) {
-	if !procNetUsable {
-		time.Sleep(2 * time.Second) // no verdict depends on this being enough: without /proc the upstream set is only smaller
-		return
-	}
-	waitFor(func() bool {
-		rows, _ := readSockets()
-		for _, r := range rows {
-			if r.lport == port && (r.state == tcpEstablished || r.state == tcpCloseWait) {
-				return false
-			}
+// noServerConnections reports whether no socket of the server side (local port = port) is open any more
+func noServerConnections(port int) bool {
+	rows, _ := readSockets()
+	for _, r := range rows {
+		if r.lport == port && (r.state == tcpEstablished || r.state == tcpCloseWait) {
+			return false
 		}
-		return true
-	})
+	}
+	return true
 }
 
 // ---------------------------------------------------------------------------------------------------------------------
 // upstreams
 
-// collected is what an answering upstream has received: log text by stamp (all texts seen, to detect alteration)
+// collected is what the upstream has seen (every record it read) and what it has acknowledged (records of messages it
+// answered): log texts by stamp
 type collected struct {
 	mu    sync.Mutex
-	texts map[string][]string
+	seen  map[string][]string
+	acked map[string][]string
 }
 
-func (c *collected) add(logText string) {
+func (c *collected) add(logText string, acked bool) {
 	c.mu.Lock()
-	if c.texts == nil {
-		c.texts = map[string][]string{}
+	if c.seen == nil {
+		c.seen, c.acked = map[string][]string{}, map[string][]string{}
 	}
 	st := stampOf(logText)
-	c.texts[st] = append(c.texts[st], logText)
+	c.seen[st] = append(c.seen[st], logText)
+	if acked {
+		c.acked[st] = append(c.acked[st], logText)
+	}
 	c.mu.Unlock()
 }
 
-func (c *collected) has(stamp string) bool {
+func (c *collected) hasSeen(stamp string) bool {
 	c.mu.Lock()
 	defer c.mu.Unlock()
-	return len(c.texts[stamp]) > 0
+	return len(c.seen[stamp]) > 0
 }
 
-func (c *collected) snapshot() map[string][]string {
+func (c *collected) snapshot() (seen, acked map[string][]string) {
 	c.mu.Lock()
 	defer c.mu.Unlock()
-	out := map[string][]string{}
-	for k, v := range c.texts {
-		out[k] = append([]string(nil), v...)
+	seen, acked = map[string][]string{}, map[string][]string{}
+	for k, v := range c.seen {
+		seen[k] = append([]string(nil), v...)
 	}
-	return out
+	for k, v := range c.acked {
+		acked[k] = append([]string(nil), v...)
+	}
+	return seen, acked
 }
 
 func stampOf(logText string) string {
@@ -288,17 +292,82 @@ func stampOf(logText string) string {
 }
 
 type upstream struct {
-	address string     // what goes into the configuration
-	got     *collected // records received by an upstream that answers (nil: this upstream acknowledges nothing)
-	settle  func()     // after run.Run has returned: wait until everything the agent had sent is in got
-	close   func()
+	address  string     // what goes into the configuration
+	got      *collected // nil: this upstream never reads a complete message it could acknowledge
+	seesAll  bool       // every chunk the agent produces reaches `got.seen` without a stop (the harness may wait for it)
+	settle   func()     // after run.Run has returned: wait until everything the agent had sent is in got
+	shutdown func()
+}
+
+// forwardCollector is the receiver of the fluentlib forward server (same interface as its MessageCollector, which hands on the
+// messages without the connection they came from): with ackFirstOnly it knows which messages the server acknowledged — the
+// server, started with RandomNoResponse=1, answers exactly the first message of every connection.
+type forwardCollector struct {
+	got          *collected
+	ackFirstOnly bool
+	connSeen     map[int64]bool
+	sentinel     chan struct{}
+	ended        chan struct{}
+}
+
+const sentinelTag = "seq-agent-sentinel"
+
+func (fc *forwardCollector) Accept(m receivers.ClientMessage) error {
+	if m.Tag == sentinelTag {
+		close(fc.sentinel)
+		return nil
+	}
+	first := !fc.connSeen[m.ConnectionID]
+	fc.connSeen[m.ConnectionID] = true
+	acked := len(m.Option.Chunk) > 0 && (first || !fc.ackFirstOnly)
+	for _, e := range m.Entries {
+		if s, ok := e.Record["log"].(string); ok {
+			fc.got.add(s, acked)
+		} else {
+			fc.got.add(fmt.Sprintf("<record without log text: %v>", e.Record), acked)
+		}
+	}
+	return nil
+}
+func (fc *forwardCollector) Tick() error { return nil }
+func (fc *forwardCollector) End() error  { close(fc.ended); return nil }
+
+// sendSentinel delivers one empty message through the server to the collector, as a client of its own. The server hands
+// every message to ONE queue in front of the collector before it acknowledges it: when the sentinel has arrived, every message
+// whose ACK the (now stopped) agent had received has arrived too. A message the agent sent without getting the ACK is, for
+// the agent, not acknowledged: it must be in the queue directory anyway, so nothing has to be awaited for it.
+func sendSentinel(addr string, fc *forwardCollector) {
+	for {
+		conn, err := net.Dial("tcp", addr)
+		if err == nil {
+			ok, _, herr := forwardprotocol.DoClientHandshake(conn, "Hi", time.Hour)
+			if ok && herr == nil {
+				conn.SetDeadline(time.Time{})
+				var buf bytes.Buffer
+				enc := msgpack.NewEncoder(&buf)
+				enc.EncodeArrayLen(3)
+				enc.EncodeString(sentinelTag)
+				enc.EncodeArrayLen(0)
+				enc.EncodeMapLen(1)
+				enc.EncodeString("chunk")
+				enc.EncodeString("sentinel")
+				if _, werr := conn.Write(buf.Bytes()); werr == nil {
+					<-fc.sentinel
+					conn.Close()
+					return
+				}
+			}
+			conn.Close()
+		}
+		time.Sleep(20 * time.Millisecond)
+	}
 }
 
 func startFluentd(cond string) *upstream {
 	switch cond {
 	case "refusing":
 		lease := leasePort()
-		return &upstream{address: lease.addr(), settle: func() {}, close: lease.release}
+		return &upstream{address: lease.addr(), settle: func() {}, shutdown: lease.release}
 	case "silent":
 		// accepts, reads and never answers (not even the HELO of the handshake)
 		l, err := net.Listen("tcp", "127.0.0.1:0")
@@ -319,7 +388,7 @@ func startFluentd(cond string) *upstream {
 				go io.Copy(io.Discard, c)
 			}
 		}()
-		return &upstream{address: l.Addr().String(), settle: func() {}, close: func() {
+		return &upstream{address: l.Addr().String(), settle: func() {}, shutdown: func() {
 			l.Close()
 			mu.Lock()
 			for _, c := range conns {
@@ -328,48 +397,45 @@ func startFluentd(cond string) *upstream {
 			mu.Unlock()
 		}}
 	}
-	// healthy: the forward server of fluentlib with a MessageCollector. "ackless": the same server acknowledging only the
-	// first chunk of every connection (RandomNoResponse=1: deterministic), i.e. healthy-then-silent per connection.
+	// healthy: the forward server of fluentlib (handshake with shared secret). "ackless": the same server acknowledging only
+	// the first message of every connection (RandomNoResponse=1: deterministic), i.e. healthy-then-silent per connection.
 	cfg := server.Config{Address: "127.0.0.1:0", Secret: "Hi"}
 	if cond == "ackless" {
 		cfg.RandomNoResponse = 1.0
 	}
-	recv, ch := receivers.NewMessageCollector(time.Hour)
-	got := &collected{}
-	drained := make(chan struct{})
-	go func() {
-		for m := range ch {
-			for _, e := range m.Entries {
-				if s, ok := e.Record["log"].(string); ok {
-					got.add(s)
-				} else {
-					got.add(fmt.Sprintf("<record without log text: %v>", e.Record))
-				}
-			}
-		}
-		close(drained)
-	}()
-	srv, addr := server.LaunchServer(logger.WithField("test", "upstream"), cfg, recv)
+	fc := &forwardCollector{got: &collected{}, ackFirstOnly: cond == "ackless", connSeen: map[int64]bool{}, sentinel: make(chan struct{}), ended: make(chan struct{})}
+	srv, addr := server.LaunchServer(logger.WithField("test", "upstream"), cfg, fc)
 	port := addr.(*net.TCPAddr).Port
 	settled := false
 	settle := func() {
-		if settled {
-			return
+		if !settled {
+			settled = true
+			sendSentinel(addr.String(), fc)
 		}
-		settled = true
-		// The agent has stopped: its connections are closed or closing. The server closes its side of a connection after the
-		// last message read from it has been queued for the collector; Shutdown then ends the collector behind the queue.
-		waitNoServerConnections(port)
-		srv.Shutdown()
-		<-drained
 	}
-	return &upstream{address: addr.String(), got: got, settle: settle, close: settle}
+	shutdown := func() {
+		settle()
+		// The server's Shutdown closes the queue in front of the collector while connection goroutines may still be putting
+		// messages into it (a crash inside the test server). It is therefore only called once the kernel shows no open
+		// connection on the server's port (a connection goroutine closes its socket after its last message); an agent that
+		// has left a connection behind (e.g. one that was being opened at the stop) keeps this server alive until the worker
+		// process ends. No verdict depends on this.
+		for i := 0; i < 100 && procNetUsable; i++ {
+			if noServerConnections(port) {
+				srv.Shutdown()
+				<-fc.ended
+				return
+			}
+			time.Sleep(5 * time.Millisecond)
+		}
+	}
+	return &upstream{address: addr.String(), got: fc.got, seesAll: true, settle: settle, shutdown: shutdown}
 }
 
 func startDatadog(cond string) *upstream {
 	if cond == "refusing" {
 		lease := leasePort()
-		return &upstream{address: "http://" + lease.addr() + "/api/v2/logs", settle: func() {}, close: lease.release}
+		return &upstream{address: "http://" + lease.addr() + "/api/v2/logs", settle: func() {}, shutdown: lease.release}
 	}
 	l, err := net.Listen("tcp", "127.0.0.1:0")
 	if err != nil {
@@ -378,18 +444,32 @@ func startDatadog(cond string) *upstream {
 	got := &collected{}
 	release := make(chan struct{})
 	var mu sync.Mutex
-	answered := 0
+	requests := 0
 	handler := http.HandlerFunc(func(w http.ResponseWriter, r *http.Request) {
 		body, rerr := io.ReadAll(r.Body)
-		silent := cond == "silent"
-		if cond == "ackless" {
-			mu.Lock()
-			silent = answered >= 1
-			answered++
-			mu.Unlock()
+		mu.Lock()
+		requests++
+		// silent: accepts every request and never answers; ackless: answers the first request only
+		answer := cond == "healthy" || (cond == "ackless" && requests == 1)
+		mu.Unlock()
+		var recs []map[string]string
+		if rerr == nil {
+			var zr *gzip.Reader
+			if zr, rerr = gzip.NewReader(bytes.NewReader(body)); rerr == nil {
+				var plain []byte
+				if plain, rerr = io.ReadAll(zr); rerr == nil {
+					rerr = json.Unmarshal(plain, &recs)
+				}
+			}
 		}
-		if silent {
-			// accepts the request and never answers; when the case is over the connection is cut without a response
+		if rerr != nil {
+			got.add(fmt.Sprintf("<undecodable request body: %v>", rerr), false)
+		}
+		for _, rec := range recs {
+			got.add(rec["log"], answer && rerr == nil)
+		}
+		if !answer {
+			// when the case is over the connection is cut without a response
 			<-release
 			panic(http.ErrAbortHandler)
 		}
@@ -397,39 +477,16 @@ func startDatadog(cond string) *upstream {
 			w.WriteHeader(http.StatusBadRequest)
 			return
 		}
-		zr, zerr := gzip.NewReader(bytes.NewReader(body))
-		var recs []map[string]string
-		if zerr == nil {
-			var plain []byte
-			if plain, zerr = io.ReadAll(zr); zerr == nil {
-				zerr = json.Unmarshal(plain, &recs)
-			}
-		}
-		if zerr != nil {
-			got.add(fmt.Sprintf("<undecodable request body: %v>", zerr))
-			w.WriteHeader(http.StatusBadRequest)
-			return
-		}
-		for _, rec := range recs {
-			got.add(rec["log"])
-		}
 		w.WriteHeader(http.StatusAccepted)
 		w.Write([]byte("{}"))
 	})
 	srv := &http.Server{Handler: handler, ErrorLog: quietHTTPLog}
 	go srv.Serve(l)
-	up := &upstream{address: "http://" + l.Addr().String() + "/api/v2/logs"}
-	if cond == "healthy" || cond == "ackless" {
-		up.got = got
-	}
+	up := &upstream{address: "http://" + l.Addr().String() + "/api/v2/logs", got: got, seesAll: cond == "healthy"}
 	closed := false
-	up.settle = func() {
-		if cond == "healthy" {
-			// waits for the requests in flight to be answered (and collected), closes idle connections
-			srv.Shutdown(context.Background())
-		}
-	}
-	up.close = func() {
+	// the handler collects a request before it answers it: what the stopped agent saw acknowledged is collected already
+	up.settle = func() {}
+	up.shutdown = func() {
 		if closed {
 			return
 		}
@@ -584,13 +641,22 @@ func diskRecords(root string, decoder base.ChunkDecoder, suffix string) (texts m
 type spec struct {
 	nIn    int
 	out    string // fluentd | datadog
+	mode   string // fluentd message mode
+	cycle  bool   // fluentd maxDuration 300ms: the client session keeps ending softly and reconnecting
 	up     string // healthy | refusing | silent | ackless
-	shape  string // a-idle | b-closed | c-open | d-new
+	shape  string // a-idle | b-closed | c-open | c-open-big | d-new | d-newkey
 	reload bool   // run.Run(..., allowReload)
 }
 
 func (s spec) id() string {
-	id := fmt.Sprintf("in%d/%s/%s/%s", s.nIn, s.out, s.up, s.shape)
+	out := s.out
+	if s.mode != "" && s.mode != "CompressedPackedForward" {
+		out += "-" + s.mode
+	}
+	if s.cycle {
+		out += "-cycle"
+	}
+	id := fmt.Sprintf("in%d/%s/%s/%s", s.nIn, out, s.up, s.shape)
 	if s.reload {
 		id += "/reloadable"
 	}
@@ -609,11 +675,13 @@ func (agentLogs) Write(p []byte) (int, error) {
 	return logs.Write(p)
 }
 
-var debug = os.Getenv("SEQ_AGENT_DEBUG") != ""
+// SEQ_AGENT_DEBUG=<file>: one line per case (counts, wall time) is appended to the file; never part of a verdict
+var debugFile = os.Getenv("SEQ_AGENT_DEBUG")
 
 func runCase(s spec) (string, string) {
 	caseSerial++
 	cs := &caseState{serial: caseSerial}
+	caseStart := time.Now()
 	logs.Reset()
 	root := hutil.ScratchRoot("seqagent")
 	defer os.RemoveAll(root)
@@ -623,12 +691,15 @@ func runCase(s spec) (string, string) {
 	var suffix, outText string
 	if s.out == "fluentd" {
 		up = startFluentd(s.up)
-		decoder, suffix, outText = &fluentdforward.Config{}, ".ff", fluentdOutput
+		decoder, suffix, outText = &fluentdforward.Config{}, ".ff", strings.ReplaceAll(fluentdOutput, "MODE", s.mode)
+		if s.cycle {
+			outText = strings.ReplaceAll(outText, "maxDuration: 30m", "maxDuration: 300ms")
+		}
 	} else {
 		up = startDatadog(s.up)
 		decoder, suffix, outText = &datadog.Config{}, ".dd", datadogOutput
 	}
-	defer up.close()
+	defer up.shutdown()
 
 	leases := []portLease{}
 	defer func() {
@@ -674,49 +745,53 @@ func runCase(s spec) (string, string) {
 		}
 		return c
 	}
-	upstreamHas := func(recs []*record) bool {
+	write := func(c net.Conn, recs []*record) {
+		if _, err := c.Write(wireOf(recs)); err != nil {
+			panic(fmt.Sprintf("write to an input connection failed while the agent is running: %v", err))
+		}
+	}
+	upstreamSaw := func(recs []*record) bool {
 		for _, r := range recs {
-			if !up.got.has(r.stamp) {
+			if !up.got.hasSeen(r.stamp) {
 				return false
 			}
 		}
 		return true
 	}
-	// closedTraffic: one connection per input, records written, connection closed; then everything is flushed: the agent's
-	// input metric counts all of them (it is updated at a flush or at the close of the connection's sink, after the records
-	// were handed to the orchestrator), and a healthy upstream has received all of them
+	// closedTraffic: two rounds of one connection per input, records written, connection closed; after each round everything
+	// is flushed: the agent's input metric counts all records (it is updated at a flush or at the close of the connection's
+	// sink, after the records were handed to the orchestrator), and an upstream that reads everything has seen all of them.
+	// (Two rounds: the second chunk of a pipeline travels on an upstream connection that has carried one before.)
 	closedTraffic := func(n int) {
-		var all []*record
-		for i := 0; i < s.nIn; i++ {
-			c := dial(i)
-			recs := cs.batch(n, true)
-			if _, err := c.Write(wireOf(recs)); err != nil {
-				panic(fmt.Sprintf("write to input %d failed while the agent is running: %v", i, err))
+		for round := 0; round < 2; round++ {
+			var all []*record
+			for i := 0; i < s.nIn; i++ {
+				c := dial(i)
+				recs := cs.batch(n, true)
+				write(c, recs)
+				c.Close()
+				all = append(all, recs...)
 			}
-			c.Close()
-			all = append(all, recs...)
-		}
-		total := len(cs.recs)
-		waitFor(func() bool { return scrapePassed(metricAddr) >= total })
-		require(all, "the connection was closed by the client and the agent's input metric counted every record before the stop")
-		if s.up == "healthy" {
-			waitFor(func() bool { return upstreamHas(all) })
+			total := len(cs.recs)
+			waitFor(func() bool { return scrapePassed(metricAddr) >= total })
+			require(all, "the connection was closed by the client and the agent's input metric counted every record before the stop")
+			if up.seesAll {
+				waitFor(func() bool { return upstreamSaw(all) })
+			}
 		}
 	}
-
-	passedBefore := 0
+	// openTraffic: connections stay open. First batch: flushed by the idle flush of the input (the metric counts it). Second
+	// batch: written, then only awaited until the kernel shows that the agent has read the bytes — no pause for a flush: the
+	// records sit parsed in the connection's sink, the last one (multi-line, nothing behind it) in the framer.
+	// With several inputs the later ones have more connections and more pending records than the first.
 	var open []net.Conn
-	switch s.shape {
-	case "a-idle":
-		scrapePassed(metricAddr)
-	case "b-closed":
-		closedTraffic(6)
-		passedBefore = scrapePassed(metricAddr)
-	case "c-open":
-		// Connections stay open. First batch: flushed by the idle flush of the input (the metric counts it). Second batch:
-		// written, then only awaited until the kernel shows that the agent has read the bytes — no pause for a flush: the
-		// records sit parsed in the connection's sink, the last one (multi-line, nothing behind it) in the framer.
-		// With two inputs the second one has more connections and more pending records than the first.
+	type lateConn struct {
+		conn net.Conn
+		rec  *record
+	}
+	var lastMinute []lateConn
+	passedBefore := 0
+	openTraffic := func(big bool) {
 		type oc struct {
 			conn    net.Conn
 			nSecond int
@@ -726,54 +801,73 @@ func runCase(s spec) (string, string) {
 		var first []*record
 		for i := 0; i < s.nIn; i++ {
 			nConn, nSecond := 1, 7
-			if i == 1 {
+			if i >= 1 {
 				nConn, nSecond = 4, 151
+			}
+			if big { // more than the 500 records a connection's sink holds before it hands them on by itself
+				nConn, nSecond = 1+i, 620
 			}
 			for k := 0; k < nConn; k++ {
 				c := dial(i)
 				recs := cs.batch(4, false)
-				if _, err := c.Write(wireOf(recs)); err != nil {
-					panic(fmt.Sprintf("write to input %d failed while the agent is running: %v", i, err))
-				}
+				write(c, recs)
 				first = append(first, recs...)
 				ocs = append(ocs, &oc{conn: c, nSecond: nSecond})
+				open = append(open, c)
 			}
 		}
 		nFirst := len(first)
 		waitFor(func() bool { return scrapePassed(metricAddr) >= nFirst })
 		require(first, "the agent's input metric counted the record before the stop")
-		if s.up == "healthy" {
-			waitFor(func() bool { return upstreamHas(first) })
+		if up.seesAll {
+			waitFor(func() bool { return upstreamSaw(first) })
 		}
 		passedBefore = scrapePassed(metricAddr)
 		for _, o := range ocs {
 			o.second = cs.batch(o.nSecond, true)
-			if _, err := o.conn.Write(wireOf(o.second)); err != nil {
-				panic(fmt.Sprintf("write to an open input connection failed while the agent is running: %v", err))
-			}
-			open = append(open, o.conn)
+			write(o.conn, o.second)
 		}
 		for _, o := range ocs {
 			if waitAgentHasRead(o.conn) {
 				require(o.second, "the kernel showed before the stop that the agent had read every byte of the connection (nothing unacknowledged at the sender, empty receive queue at the agent)")
 			}
 		}
-	case "d-new":
+	}
+
+	switch s.shape {
+	case "a-idle":
+		scrapePassed(metricAddr)
+	case "b-closed":
+		closedTraffic(3)
+		passedBefore = scrapePassed(metricAddr)
+	case "c-open":
+		openTraffic(false)
+	case "c-open-big":
+		openTraffic(true)
+	case "d-new", "d-newkey":
 		// like b; then a NEW connection per input whose first record is written immediately before the SIGTERM, no wait in
 		// between: the stop races with accept / first read. Those records may legitimately be lost (never read).
-		closedTraffic(4)
+		// d-newkey: the record belongs to a key set the agent has not seen yet (a pipeline would have to be created).
+		closedTraffic(2)
 		passedBefore = scrapePassed(metricAddr)
 		for i := 0; i < s.nIn; i++ {
 			c, err := net.Dial("tcp4", inAddrs[i])
 			if err != nil {
 				continue
 			}
-			c.Write(wireOf(cs.batch(1, false)))
+			app := "alpha"
+			if s.shape == "d-newkey" {
+				app = fmt.Sprintf("gamma%d", i)
+			}
+			r := cs.newRecord(app, false)
+			c.Write([]byte(r.wire))
 			open = append(open, c)
+			lastMinute = append(lastMinute, lateConn{c, r})
 		}
 	}
 
 	// the stop request, the way production does it
+	stopStart := time.Now()
 	syscall.Kill(os.Getpid(), syscall.SIGTERM)
 	// (A SIGTERM that arrives before run.Run has reached signal.Notify — possible only in the instant after the metric
 	// listener came up — is swallowed by the harness's own registration instead of killing the worker; it is repeated.)
@@ -788,32 +882,57 @@ stopWait:
 		}
 	}
 	resend.Stop()
+	stopTook := time.Since(stopStart) // reported in the debug file only
 
 	// run.Run has returned: this is the instant the process would exit. The queue directory is read NOW.
 	disk, files, bad := diskRecords(filepath.Join(root, "q"), decoder, suffix)
 	bugLine := logs.FirstBugLine()
+	// A connection opened immediately before the stop: the agent has closed its side by now (or never accepted it). The kernel
+	// answers a close with unread bytes in the receive queue, and bytes arriving after the close, with a reset; an orderly end
+	// of stream (FIN) therefore shows that the agent had read every byte written to the connection — the record counts as read.
+	for _, lc := range lastMinute {
+		lc.conn.SetReadDeadline(time.Now().Add(30 * time.Second)) // still open after the agent has stopped: no evidence either way
+		_, err := lc.conn.Read(make([]byte, 16))
+		if err == io.EOF {
+			require([]*record{lc.rec}, "the agent ended the connection in an orderly way (end of stream, no reset): it had read every byte written to it")
+		} else if debugFile != "" {
+			rows, _ := readSockets()
+			lp := lc.conn.LocalAddr().(*net.TCPAddr).Port
+			rp := lc.conn.RemoteAddr().(*net.TCPAddr).Port
+			txt := ""
+			for _, r := range rows {
+				if (r.lport == lp && r.rport == rp) || (r.lport == rp && r.rport == lp) || (r.lport == rp && r.state == 10) {
+					txt += fmt.Sprintf(" %+v", r)
+				}
+			}
+			if f, ferr := os.OpenFile(debugFile, os.O_APPEND|os.O_CREATE|os.O_WRONLY, 0o644); ferr == nil {
+				fmt.Fprintf(f, "LATE %s: read error %v; sockets:%s\n", s.id(), err, txt)
+				f.Close()
+			}
+		}
+	}
 	for _, c := range open {
 		c.Close()
 	}
 	up.settle()
-	var acked map[string][]string
+	var seen, acked map[string][]string
 	if up.got != nil {
-		acked = up.got.snapshot()
+		seen, acked = up.got.snapshot()
 	}
+	letStragglersEnd()
 	if bad != "" {
 		return "undecodable-chunk-file", bad
 	}
 
 	found, missingRequired, possiblyUnread := 0, []*record{}, 0
 	for _, r := range cs.recs {
-		texts := append(append([]string{}, acked[r.stamp]...), disk[r.stamp]...)
-		for _, t := range texts {
+		for _, t := range append(append([]string{}, seen[r.stamp]...), disk[r.stamp]...) {
 			if t != r.want {
 				return "record-altered", fmt.Sprintf("record %s was sent with the text %q and came out (upstream or chunk file) as %q", r.stamp, r.want, t)
 			}
 		}
 		switch {
-		case len(texts) > 0:
+		case len(acked[r.stamp])+len(disk[r.stamp]) > 0:
 			found++
 		case r.required:
 			missingRequired = append(missingRequired, r)
@@ -822,21 +941,39 @@ stopWait:
 		}
 	}
 	ctxNote(s, possiblyUnread)
-	detail := fmt.Sprintf("%d records written, %d found (upstream received %d stamps, %d chunk files hold %d stamps), input metric before the stop: %d passed", len(cs.recs), found, len(acked), files, len(disk), passedBefore)
+	detail := fmt.Sprintf("%d records written, %d found (the upstream answered messages holding %d of the stamps and read %d, %d chunk files hold %d stamps), input metric before the stop: %d passed",
+		len(cs.recs), found, len(acked), len(seen), files, len(disk), passedBefore)
 	if bugLine != "" {
 		detail += "; agent log: " + clipTo(bugLine, 300)
 	}
-	if debug {
-		fmt.Fprintf(os.Stderr, "DEBUG %s: %s; possibly unread %d; missing required %d\n", s.id(), detail, possiblyUnread, len(missingRequired))
+	if debugFile != "" {
+		if f, err := os.OpenFile(debugFile, os.O_APPEND|os.O_CREATE|os.O_WRONLY, 0o644); err == nil {
+			fmt.Fprintf(f, "%6.2fs (stop %5.2fs) %s: %s; possibly unread %d; missing required %d\n", time.Since(caseStart).Seconds(), stopTook.Seconds(), s.id(), detail, possiblyUnread, len(missingRequired))
+			f.Close()
+		}
 	}
 	if len(missingRequired) > 0 {
 		r := missingRequired[0]
-		return "record-only-in-memory", fmt.Sprintf("after run.Run returned, %d record(s) the agent had read are neither received by the upstream nor in a chunk file of the queue directory, e.g. %s (%s); %s", len(missingRequired), r.stamp, r.why, detail)
+		return "record-only-in-memory", fmt.Sprintf("after run.Run returned, %d record(s) the agent had read are neither acknowledged by the upstream nor in a chunk file of the queue directory, e.g. %s (%s); %s", len(missingRequired), r.stamp, r.why, detail)
 	}
 	if found < passedBefore {
-		return "record-only-in-memory", fmt.Sprintf("the agent's input metric had counted %d passed records before the SIGTERM, but only %d records are upstream or in a chunk file after run.Run returned; %s", passedBefore, found, detail)
+		return "record-only-in-memory", fmt.Sprintf("the agent's input metric had counted %d passed records before the SIGTERM, but only %d records are acknowledged by the upstream or in a chunk file after run.Run returned; %s", passedBefore, found, detail)
 	}
 	return "", ""
+}
+
+// letStragglersEnd gives connection goroutines of the stopped agent that are still running a moment to end before the
+// next case starts in this process, so that a crash they cause is attributed to the case that left them behind. No verdict
+// depends on it (an agent that returns from run.Run with live connection goroutines is found by what they do next).
+func letStragglersEnd() {
+	buf := make([]byte, 1<<20)
+	for i := 0; i < 100; i++ {
+		n := runtime.Stack(buf, true)
+		if !bytes.Contains(buf[:n], []byte("tcplistener.(*tcpLineListener).runConnection")) {
+			return
+		}
+		time.Sleep(10 * time.Millisecond)
+	}
 }
 
 func clipTo(s string, n int) string {
@@ -862,19 +999,34 @@ func ctxNote(s spec, possiblyUnread int) {
 
 func enumerate(ctx *seq.Ctx) {
 	theCtx = ctx
-	reloads := []bool{false}
-	ups := []string{"healthy", "refusing", "silent"}
-	if ctx.Thorough() {
-		reloads = []bool{false, true}
-		ups = []string{"healthy", "refusing", "silent", "ackless"}
+	type outKind struct {
+		out, mode string
+		cycle     bool
 	}
-	for _, reload := range reloads {
-		for _, out := range []string{"fluentd", "datadog"} {
-			for _, up := range ups {
-				ctx.Group(fmt.Sprintf("%s/%s", out, up))
-				for _, nIn := range []int{1, 2} {
-					for _, shape := range []string{"a-idle", "b-closed", "c-open", "d-new"} {
-						s := spec{nIn: nIn, out: out, up: up, shape: shape, reload: reload}
+	outs := []outKind{{"fluentd", "CompressedPackedForward", false}, {"datadog", "", false}}
+	nIns := []int{1, 2}
+	shapes := []string{"a-idle", "b-closed", "c-open", "d-new", "d-newkey"}
+	if ctx.Thorough() {
+		outs = nil
+		for _, cycle := range []bool{false, true} {
+			for _, mode := range []string{"CompressedPackedForward", "PackedForward", "Forward"} {
+				outs = append(outs, outKind{"fluentd", mode, cycle})
+			}
+		}
+		outs = append(outs, outKind{"datadog", "", false})
+		nIns = []int{1, 2, 3}
+		shapes = []string{"a-idle", "b-closed", "c-open", "c-open-big", "d-new", "d-newkey"}
+	}
+	for _, reload := range []bool{false, true} {
+		for _, o := range outs {
+			for _, up := range []string{"healthy", "refusing", "silent", "ackless"} {
+				ctx.Group(fmt.Sprintf("%s/%s", o.out, up))
+				for _, nIn := range nIns {
+					for _, shape := range shapes {
+						if ctx.Stop() {
+							return
+						}
+						s := spec{nIn: nIn, out: o.out, mode: o.mode, cycle: o.cycle, up: up, shape: shape, reload: reload}
 						ctx.Case(s.id(), shape != "a-idle", s.id(), func() (string, string) { return runCase(s) })
 					}
 				}
@@ -905,18 +1057,20 @@ func main() {
 		Property: *flagProp,
 		Level:    "exploration",
 		Rule: "whole agent on real loopback sockets and real threads: the shipped run.Run(configFile, metricAddress, allowReload) in-process (byKeySet orchestrator, two key sets, hybridBuffer with a queue directory), stopped by SIGTERM to the own process; " +
-			"full product of {1, 2 syslog inputs} x {fluentdForward against the fluentlib server with a MessageCollector, datadog against an HTTP server} x upstream at the stop {healthy, refusing (nothing listens), silent (accepts, reads, never answers)" +
-			"; thorough: + acknowledges only the first chunk/request} x traffic at the stop {a: none; b: one connection per input, records written, closed, all flushed; c: connections still open, a second batch read by the agent but not flushed, last record multi-line in the framer; " +
-			"d: after b, a new connection per input whose first record is written immediately before the SIGTERM} (thorough: x allowReload {false, true}); " +
+			"full product of allowReload {false, true} x {1, 2 syslog inputs; thorough: 3} x {fluentdForward against the fluentlib forward server (secret handshake; thorough: all three message modes x maxDuration {30m, 300ms}), datadog against an HTTP server collecting the gzip-JSON bodies} " +
+			"x upstream at the stop {healthy, refusing (nothing listens), silent (accepts, reads, never answers), ackless (answers only the first message of a connection / the first request)} " +
+			"x traffic at the stop {a: none; b: connections written and closed, all flushed; c: connections still open, a second batch read by the agent but not flushed, last record multi-line in the framer (thorough: also with more pending records than a sink holds); " +
+			"d: after b, a new connection per input whose first record (known key set / new key set) is written immediately before the SIGTERM}; " +
 			"oracle: run.Run returns (otherwise stalled-case watchdog), no goroutine of the agent panics (worker death is attributed to the case), and at the return of run.Run every record the agent is known to have read " +
-			"(input metric slogagent_input_passed_records_total scraped from the agent's metric listener before the SIGTERM; client-side close + metric; kernel socket queues showing the bytes were read) is received by an answering upstream or in a chunk file " +
+			"(input metric slogagent_input_passed_records_total scraped from the agent's metric listener before the SIGTERM; client-side close + metric; kernel socket queues showing the bytes were read) is in a message the upstream answered or in a chunk file " +
 			"of the queue directory (decoded with the output's own decoder), with unchanged text; non-trivial = cases with traffic",
 		Assumptions: []string{
 			"real threads and sockets: the product of configurations x upstream conditions x traffic shapes is enumerated, the thread schedule (in particular stop vs accept in shape d) is what the runtime produces",
 			"a record written to a socket but not read by the agent at the stop may be lost (TCP): records without evidence of having been read that are found neither upstream nor on disk are counted as possibly-unread observations (see notes), not as violations",
-			"'acknowledged by the upstream' is observed as 'received by an upstream that answers' (the forward server queues a message for the collector before it sends the ACK; the HTTP server collects before it answers 202): a superset, so a chunk whose ACK was lost is not reported",
+			"'acknowledged by the upstream' is observed at the upstream as 'in a message the upstream answered' (the forward server hands a message to the receiver before it sends the ACK; the HTTP server collects before it answers 202): a superset of what the agent saw acknowledged, so a chunk whose ACK was lost on the way is not reported",
 			"no wall-clock verdict: every wait is without timeout; the give-up timeouts of the agent are scaled down (test mode; channel 8 s, buffer shutdown 12 s, datadog httpTimeout 1 s) but stay far above what they wait for",
 			"ports come from below the kernel's ephemeral range, test-bound and flock-reserved, because run.Run does not report the addresses it listens on",
+			"several cases run one after the other in one worker process (run.Run works repeatedly in one process: its metric factories are per call, the default registry is only used by promhttp's handler instrumentation, which tolerates re-registration)",
 		},
 		Enumerate:        enumerate,
 		MaxProcs:         6,
@@ -926,8 +1080,8 @@ func main() {
 	})
 }
 
-// workerSetup prepares a worker process: scaled-down timeouts, and a signal registration of its own so that a SIGTERM sent
-// in the instant before run.Run has registered its handler does not kill the process.
+// workerSetup prepares a process that runs cases: scaled-down timeouts, and a signal registration of its own so that a
+// SIGTERM sent in the instant before run.Run has registered its handler does not kill the process.
 func workerSetup() {
 	signal.Notify(make(chan os.Signal, 1), syscall.SIGTERM)
 	ppid := os.Getppid()
